@@ -4,6 +4,10 @@ from common import *
 
 # level claimed per property (kept in sync with MANIFEST.json by engine/selftest)
 PROP_LEVEL = {
+    # properties whose obligations are (almost) all BOUNDED Kani runs: not claimed as proofs
+    "C06": "other",
+    "C08": "other",
+    "C18": "other",
 }
 
 GLOBAL_TRUSTED = [
